@@ -79,12 +79,14 @@ def isometry_pair(V, scheme):
     return est, act
 
 
-def eval_isometry(ctx, V, scheme, fam, demanded=True):
+def eval_isometry(ctx, V, scheme, fam, demanded=True, flat=False):
+    """flat: a state vector handed over as a one-dimensional array (m = 0 only)"""
     V = np.asarray(V, dtype=complex).reshape(len(V), -1)
     n, m = int(np.log2(V.shape[0])), int(np.log2(V.shape[1]))
-    case = {"function": "isometry.cnot_count", "scheme": scheme, "n": n, "m": m, "family": fam, "isometry": jsonable(V)}
+    flat = bool(flat and m == 0)
+    case = {"function": "isometry.cnot_count", "scheme": scheme, "n": n, "m": m, "family": fam, "isometry": jsonable(V), "flat": flat}
     try:
-        est, act = isometry_pair(V, scheme)
+        est, act = isometry_pair(V[:, 0].copy() if flat else V, scheme)
     except Exception as exc:  # noqa: BLE001
         if not demanded:
             ctx.monitor(f"{fam}_raised")
@@ -265,6 +267,9 @@ def evaluate(ctx, deep):
                     ctx.count(fam, key=(scheme, n, m, key_v), nontrivial=n >= 2,
                               sample={"scheme": scheme, "n": n, "m": m} if (n, m) == (3, 1) else None)
                     eval_isometry(ctx, V, scheme, fam)
+                    if m == 0:
+                        ctx.count(fam + ":1d", key=(scheme, n, m, key_v, "flat"), nontrivial=n >= 2, sample=None)
+                        eval_isometry(ctx, V, scheme, fam, flat=True)
     if deep:    # n = 6 without knill (knill at n = 6 prepares 64-vectors: see the low-rank known finding)
         for m in (0, 1, 3, 5, 6):
             V = haar(rng, 64)[:, :2 ** m]
@@ -347,7 +352,7 @@ def replay(ctx, case):
         return eval_unitary(ctx, unjson_array(case["matrix"]).astype(complex), case["decomposition"], case["iso"],
                             case["apply_a2"], fam)
     if fn == "isometry.cnot_count":
-        return eval_isometry(ctx, unjson_array(case["isometry"]).astype(complex), case["scheme"], fam)
+        return eval_isometry(ctx, unjson_array(case["isometry"]).astype(complex), case["scheme"], fam, flat=bool(case.get("flat", False)))
     if fn == "lowrank.cnot_count":
         return eval_lowrank(ctx, unjson_array(case["state"]).astype(complex), case["low_rank"], case["iso_scheme"],
                             case["unitary_scheme"], case["partition"], fam)
